@@ -1,4 +1,5 @@
 import GrcovModel.Drv.C16
+import GrcovModel.Drv.C16Regex
 open Grcov.Drv
 
 def step (line : String) : String :=
@@ -8,6 +9,10 @@ def step (line : String) : String :=
   | "ffselect" :: args => handleFFSelect args
   | "fflines" :: args => handleFFLines args
   | "ffsrc" :: args => handleFFSrc args
+  | "c16.rx.parse" :: args => C16Regex.handleParse args
+  | "c16.rx.match" :: args => C16Regex.handleMatch args
+  | "c16.rx.table" :: args => C16Regex.handleTable args
+  | "c16.rx.create" :: args => C16Regex.handleCreate args
   | _ => "bad-op"
 
 partial def loop (h : IO.FS.Stream) (out : IO.FS.Stream) : IO Unit := do
